@@ -53,7 +53,7 @@ CHECKS = {
     "C17": (
         "interprocedural effect / alias analysis + cache-key injectivity by abstract interpretation",
         "Same heap model as C16, single thread, arbitrary history. Decided: every API-reachable write to module-level state is a verified cache fill, a write-only counter or a scratch buffer completely written before it is read in every activation (must-define walk); cache keys are complete (every variable the value is computed from feeds the key) and injective (list indices evaluated by the abstract interpreter for every combination of boolean arguments: mixed-radix forms with disjoint ranges; dict key covers the whole argument); no public function mutates a parameter (transitively); public functions return objects allocated in the call, never module-level objects; no nondeterminism source is reachable from the API or import-time code.",
-        "Trusted: as C16. Bit-for-bit equality additionally assumes a deterministic libm.",
+        "Trusted: as C16. Bit-for-bit equality additionally assumes a deterministic libm. Round 11: C17.2 also reports a memo whose key rounds an argument (round / floor) while the stored value is computed from the argument as given; C17.4 counts a component of a module-level container that is itself the returned value (`return TABLE[key]`) as a shared object unless the declared result type is immutable; a one-slot memo kept in module-level variables is judged by what its key and its stored values are computed from, through the function's locals.",
         "DESIGN.md section 3, C17",
     ),
     "C05": (
@@ -83,12 +83,12 @@ CHECKS = {
     "C10": (
         "structural extraction + inductive-invariant check by abstract interpretation of generic loop iterations; shape-independent refutation: abstract interpretation of uncompact on small lists of symbolic cells",
         "uncompact's two-pass shape is extracted; one generic iteration of each pass is interpreted for every pair (cell resolution, target) in [-1,30]^2: finer-than-target cells raise in the sizing pass on every path, before the result exists; sizing adds s(r,t); the filling pass writes exactly the block offset..offset+s-1 with the summarised cell_to_children(cell, target) family (or the cell itself), all of resolution t, and advances the offset by the same s; the allocation length is the accumulated size; both passes iterate the argument itself in order; the argument is never mutated. C10.6: neither the list cell_to_children hands over nor the result of uncompact is a shared (memoised / module-level) object.",
-        _CODEC_NOTE + " List entries are valid cell ids. C10.7: witness search on list shapes (order, repeats, three resolutions interleaved, targets that must raise), compared position by position with the concatenated cell_to_children families.",
+        _CODEC_NOTE + " List entries are valid cell ids. C10.7: witness search on list shapes (order, repeats, three resolutions interleaved, targets that must raise), compared position by position with the concatenated cell_to_children families; since round 11 also at the coarsest levels (world cell, faces, quintants) and through the function of that name DEFINED in a5/__init__.py when there is one (a wrapper that drops the world cell is reported with the input as witness).",
         "DESIGN.md section 3, C10",
     ),
     "C20": (
         "constant propagation + size summaries compared on the finite resolution lattice",
-        "get_num_cells / get_num_children / cell_area are evaluated by the abstract interpreter (constant propagation) for every resolution and resolution pair and compared with the size summary of the code that enumerates cells (length of the summarised cell_to_children family), the expansion of the world cell, the product rule and strict monotonicity; cell_area's return expression is decomposed structurally (one module constant = 4*pi*R*R over get_num_cells(r)), R is compared with the WGS84 authalic radius derived in the checker, and exact representability of the counts bounds the rounding. C20.6 ('distinct' cells): per resolution pair, every listed child is a cell of the target level and no child is listed twice for one parent (the C06.1/C06.2 analysis without the cell_to_parent obligations), and a collision witness is searched for children of different parents (the child id form at two valuations with the same value); no witness proves nothing more. An exported name of a5/__init__.py that is defined there instead of being imported from a5.core makes the property's obligations about the exported function undecided (rule <id>.0; same for every claimed property).",
+        "get_num_cells / get_num_children / cell_area are evaluated by the abstract interpreter (constant propagation) for every resolution and resolution pair and compared with the size summary of the code that enumerates cells (length of the summarised cell_to_children family), the expansion of the world cell, the product rule and strict monotonicity; cell_area's return expression is decomposed structurally (one module constant = 4*pi*R*R over get_num_cells(r)), R is compared with the WGS84 authalic radius derived in the checker, and exact representability of the counts bounds the rounding. C20.6 ('distinct' cells): per resolution pair, every listed child is a cell of the target level and no child is listed twice for one parent (the C06.1/C06.2 analysis without the cell_to_parent obligations), and a collision witness is searched for children of different parents (the child id form at two valuations with the same value); no witness proves nothing more. C20.7: the lists the counts describe (cell_to_children, get_res0_cells) are allocated in the call -- a memoised / module-level list handed out by reference has another length than the count functions say once a caller has edited it. An exported name of a5/__init__.py that is defined there instead of being imported from a5.core makes the property's obligations about the exported function undecided (rule <id>.0; same for every claimed property); the abstract interpreter follows repository-defined decorators (wrapper closures with *args / **kwargs) and with-statements over repository-defined context managers, anything else it cannot follow is undecided.",
         _CODEC_NOTE + " IEEE-754 doubles for the folded constants; WGS84 a, 1/f typed into the checker.",
         "DESIGN.md section 3, C20",
     ),
